@@ -289,6 +289,11 @@ class ManageSieveConnection:
             return Response(Condition.NO, text='Bad command.')
         resp = Response(Condition.OK)
         await self._write_response(resp)
+        # what the client sent behind STARTTLS without waiting for the
+        # handshake is plaintext, it must not be read as protected input
+        buffered = getattr(self.reader, '_buffer', None)
+        if buffered:
+            buffered.clear()
         await self.writer.start_tls(ssl_context)
         self._print('%d <->| %s', b'<TLS handshake>')
         self._offer_starttls = False
